@@ -332,6 +332,13 @@ pub struct StringEval {
 
 impl StringEval {
     pub fn eval(&self, s: &str, acc: &mut Acc) -> bool {
+        watch_begin(s);
+        let r = self.eval_guarded(s, acc);
+        watch_end();
+        r
+    }
+
+    fn eval_guarded(&self, s: &str, acc: &mut Acc) -> bool {
         match guarded(|| self.eval_inner(s, acc)) {
             Ok(nt) => nt,
             Err(msg) => {
